@@ -294,7 +294,9 @@ impl Dec {
         }
     }
 
-    fn feed(&mut self, b: u8) {
+    fn feed(&mut self, ch: char) {
+        // sequences are made of ASCII; any other character maps to a byte value that no rule treats specially
+        let b: u8 = if (ch as u32) < 0x80 { ch as u8 } else { 0x80 };
         match self.st {
             St::Ground => match b {
                 b'\n' => self.newline(),
@@ -303,9 +305,7 @@ impl Dec {
                     self.st = St::Esc
                 }
                 _ => {
-                    // bytes are valid UTF-8 (caller decodes lossily first); collect
-                    // raw and let `text` hold them
-                    unsafe { self.text.as_mut_vec().push(b) };
+                    self.text.push(ch);
                 }
             },
             St::Esc => match b {
@@ -329,7 +329,7 @@ impl Dec {
                 }
                 0x1b => {}
                 _ => {
-                    self.cur.other_controls.push(format!("ESC {}", b as char));
+                    self.cur.other_controls.push(format!("ESC {}", ch));
                     self.st = St::Ground
                 }
             },
@@ -350,6 +350,12 @@ impl Dec {
                     self.st = St::Ground;
                     self.csi();
                 }
+                0x80 => {
+                    // not part of any control sequence: the sequence is aborted, the character is text
+                    self.cur.other_controls.push("CSI-aborted".to_string());
+                    self.st = St::Ground;
+                    self.text.push(ch);
+                }
                 b'\n' => {
                     self.newline();
                     self.st = St::Ground
@@ -362,6 +368,10 @@ impl Dec {
                 _ => self.buf.push(b),
             },
             St::Osc => match b {
+                0x80 => {
+                    let mut tmp = [0u8; 4];
+                    self.buf.extend_from_slice(ch.encode_utf8(&mut tmp).as_bytes());
+                }
                 0x07 => {
                     self.st = St::Ground;
                     self.osc()
@@ -386,7 +396,7 @@ impl Dec {
                     // ESC not followed by '\': the OSC is aborted, ESC starts a new sequence
                     self.cur.other_controls.push("OSC-aborted".to_string());
                     self.st = St::Esc;
-                    self.feed(b);
+                    self.feed(ch);
                 }
             },
             St::Str => match b {
@@ -423,8 +433,8 @@ pub fn decode(bytes: &[u8]) -> Screen {
         text: String::new(),
         buf: Vec::new(),
     };
-    for &b in s.as_bytes() {
-        d.feed(b);
+    for ch in s.chars() {
+        d.feed(ch);
     }
     // final unterminated row
     d.flush_text();
